@@ -87,6 +87,32 @@ fn c04_paired_extend_lengths_bounded() {
         kani::cover!(la < lb);
     }
 }
+// C09 (bounded): extend on a state that already holds data continues the accumulation (chunked feeding = batch)
+#[kani::proof]
+#[kani::unwind(6)]
+fn c09_paired_extend_accumulates_bounded() {
+    let a: [f32; 3] = [2.0, 4.0, 8.0];
+    let b: [f32; 3] = [0.25, 3.0, 1.0];
+    let len: usize = kani::any();
+    kani::assume(len <= 3);
+    let (va, vb): (Vec<f32>, Vec<f32>) = (a[..len].to_vec(), b[..len].to_vec());
+    // prior contents: one pair fed pair by pair, one by tuple
+    let mut p = Paired::<f32>::default();
+    assert!(p.append_pair(1.0, 0.5).is_ok());
+    assert!(p.extend_tuple(&vec![(3.0f32, 1.5f32)]).is_ok());
+    let mut q = p.clone();
+    assert!(p.extend(&va, &vb).is_ok());
+    let mut i = 0;
+    while i < len { assert!(q.append_pair(a[i], b[i]).is_ok()); i += 1; }
+    assert!(arith_bits_f32(&p.stats) == arith_bits_f32(&q.stats), "extend on a non-empty state differs from continuing pair by pair");
+    assert!(p.sample_count() == 2 + len);
+    // a failed extend (unequal lengths) reports the lengths of the arguments, not of the state
+    let mut r = q.clone();
+    let e = r.extend(&va, &vec![9.0f32; 4]);
+    assert!(matches!(e, Err(CIError::DifferentSampleSizes(x, y)) if x == len && y == 4));
+    kani::cover!(len == 3);
+    kani::cover!(len == 0);
+}
 // the sign of the difference: a_i - b_i (symbolic values, one pair)
 #[kani::proof]
 fn c04_paired_append_pair_is_a_minus_b() {
